@@ -28,10 +28,11 @@ static int W_CSV_QUOTED, W_CSV_NUM, W_CSV_EMPTY, W_CSV_ARRAY, W_CSV_CELLWISE, W_
 static const char* LINES[] = { "[a]", "[ab]", "x=1", "y=2", "  z=3", "# c", "; c", "" };
 enum { NLINES = 8 };
 static const char* NAMES[] = { "a/x", "a/n", "ab/y", "c/k", "x" }; // section "a" is a prefix of section "ab"
-static const char* VALUES[] = { "v", "w w" };
-enum { NOPS = 10 };
-static const char* op_name(int op) { return NAMES[op / 2]; }
-static const char* op_val(int op) { return VALUES[op % 2]; }
+static const char* VALUES[] = { "v", "w w", "" }; // the empty value: a key set to "" reads back as "" whether or not it is stored
+enum { NOPS = 15, NOPS_NONEMPTY = 10 };
+// ops 0..9: the five names x {"v", "w w"}; ops 10..14: the five names x ""   (case strings spell op k as the letter 'a'+k)
+static const char* op_name(int op) { return op < 10 ? NAMES[op / 2] : NAMES[op - 10]; }
+static const char* op_val(int op) { return op < 10 ? VALUES[op % 2] : VALUES[2]; }
 
 // ---- reference: plain line parser of INI text (sections, comments, key=value, blanks); std:: only
 typedef std::pair<std::string, std::string> SK; // (section, key); section "" = entries before the first header
@@ -121,7 +122,7 @@ struct IniCase {
 	std::string str() const {
 		std::string l, o;
 		for (size_t i = 0; i < lines.size(); i++) l += char('0' + lines[i]);
-		for (size_t i = 0; i < ops.size(); i++) o += char('0' + ops[i]);
+		for (size_t i = 0; i < ops.size(); i++) o += char('a' + ops[i]);
 		return fmt("ini:%c:%d:%d:%s:%s", crlf ? 'C' : 'L', finalnl ? 1 : 0, wpos, l.empty() ? "-" : l.c_str(), o.empty() ? "-" : o.c_str());
 	}
 	std::string text() const {
@@ -178,8 +179,12 @@ struct IniCheck {
 				if (v != it->second) bad("untouched_lost", std::string(when) + " a fresh IniFile returns \"" + v + "\" for the untouched pre-existing " + name + "=" + it->second + "; text on disk " + show(raw));
 			}
 			for (size_t i = 0; i < setnames.size(); i++) {
-				std::string v = vfx::S(cf[vfx::A(setnames[i])]);
-				const std::string& want1 = model[resolve(setnames[i])];
+				SK rk = resolve(setnames[i]);
+				const std::string& want1 = model[rk];
+				// a name without '/' is looked up in the fresh file's own "current section"; an empty value need not be stored, and without it
+				// that current section can be another one - so an empty value set under a bare name is queried by its qualified name
+				std::string qname = (want1.empty() && setnames[i].find('/') == std::string::npos) ? (rk.first.empty() ? std::string("-") : rk.first) + "/" + rk.second : setnames[i];
+				std::string v = vfx::S(cf[vfx::A(qname)]);
 				vf::add(W_SETCHECKS);
 				if (v != want1) bad("set_lost", std::string(when) + " a fresh IniFile returns \"" + v + "\" for " + setnames[i] + " which was set to \"" + want1 + "\"; text on disk " + show(raw));
 			}
@@ -248,7 +253,7 @@ static bool parse_ini_case(const std::string& s, IniCase& c) {
 	if (f.size() != 6) return false;
 	c.crlf = f[1] == "C"; c.finalnl = f[2] == "1"; c.wpos = atoi(f[3].c_str());
 	if (f[4] != "-") for (size_t i = 0; i < f[4].size(); i++) c.lines.push_back(f[4][i] - '0');
-	if (f[5] != "-") for (size_t i = 0; i < f[5].size(); i++) c.ops.push_back(f[5][i] - '0');
+	if (f[5] != "-") for (size_t i = 0; i < f[5].size(); i++) c.ops.push_back(f[5][i] >= 'a' ? f[5][i] - 'a' : f[5][i] - '0');
 	return true;
 }
 
@@ -355,17 +360,19 @@ static void run_case(const std::string& k) {
 }
 
 // all set() histories of length <= K, all ways of writing
-static void ini_histories(IniCase& c, int K, bool allWritePositions) {
+static void ini_histories(IniCase& c, int K, bool allWritePositions, int nops = NOPS_NONEMPTY) {
 	uint64_t n = 1;
 	for (int len = 0; len <= K; len++) {
 		for (uint64_t i = 0; i < n; i++) {
 			c.ops.clear();
 			uint64_t x = i;
-			for (int j = 0; j < len; j++) { c.ops.push_back((int)(x % NOPS)); x /= NOPS; }
+			bool hasEmpty = false;
+			for (int j = 0; j < len; j++) { c.ops.push_back((int)(x % nops)); if (c.ops.back() >= NOPS_NONEMPTY) hasEmpty = true; x /= nops; }
+			if (nops > NOPS_NONEMPTY && !hasEmpty) continue; // done by the plan over the non-empty values
 			c.wpos = -1; run_ini(c);
 			for (int w = allWritePositions ? 0 : len; w <= len; w++) { c.wpos = w; run_ini(c); }
 		}
-		n *= NOPS;
+		n *= nops;
 	}
 }
 
@@ -377,7 +384,7 @@ static const char* PART = "c18_inicsv";
 #define OTHER_PART_W "w."
 #endif
 
-struct Plan { int nlmin, nl, k; bool allw; };
+struct Plan { int nlmin, nl, k; bool allw; bool withEmpty; }; // withEmpty: only the histories that set at least one empty value (the others belong to the plain plan)
 // every text of nlmin..nl lines x {LF, CRLF} x {final newline, none}; every history of <= k sets; written by the destructor
 // and by write() after the last set (allw: after every prefix of the history)
 static void ini_plan(const Plan& pl) {
@@ -396,9 +403,9 @@ static void ini_plan(const Plan& pl) {
 		if (len == 0 && !c.finalnl) return;               // "" once: with 0 lines the final-newline variants coincide
 		if (len <= 1 && c.crlf && !c.finalnl) return;      // a single unterminated line has no line ending to vary
 		for (int j = 0; j < len; j++) { c.lines.push_back((int)(x % NLINES)); x /= NLINES; }
-		ini_histories(c, pl.k, pl.allw);
+		ini_histories(c, pl.k, pl.allw, pl.withEmpty ? NOPS : NOPS_NONEMPTY);
 	}, 8);
-	vf::setinfo(fmt("wall_s.ini_lines%d-%d_sets%d%s", pl.nlmin, pl.nl, pl.k, pl.allw ? "_allw" : ""), fmt("%.1f", vf::now_s() - t0));
+	vf::setinfo(fmt("wall_s.ini_lines%d-%d_sets%d%s", pl.nlmin, pl.nl, pl.k, pl.allw ? "_allw" : "") + (pl.withEmpty ? "_emptyvalues" : ""), fmt("%.1f", vf::now_s() - t0));
 }
 
 // every table of R x C cells over the alphabet, written cell-wise and as arrays
@@ -439,18 +446,20 @@ int main(int argc, char** argv) {
 #ifdef C18_DEEP
 	// the large products, built without sanitizer (value and order oracles only; the ASan part covers the smaller spaces)
 	(void)T;
+	{ Plan p = { 0, 4, 3, false, true }; ini_plan(p); }   // the same with empty values among the sets
 	{ Plan p = { 0, 5, 2, false }; ini_plan(p); }   // texts <= 5 lines x histories <= 2
 	{ Plan p = { 0, 4, 3, false }; ini_plan(p); }   // texts <= 4 lines x histories <= 3
 	{ Plan p = { 0, 3, 3, true }; ini_plan(p); }    // texts <= 3 lines x histories <= 3 x write() after every prefix
 	csv_shape(3, 2);
 	csv_shape(2, 3);
-	vf::sample("ini:L:0:3:01234:951 = 5-line text \"[a]\\n[ab]\\nx=1\\ny=2\\n  z=3\" (no final newline), set(\"x\",\"w w\"); set(\"ab/y\",\"w w\"); set(\"a/x\",\"w w\"); write(); ~IniFile()");
-	vf::sample("ini:C:1:1:570:382 (write() after every prefix): text \"# c\\r\\n\\r\\n[a]\\r\\n\", set(\"a/n\",\"w w\"); write(); set(\"x\",\"v\"); set(\"a/n\",\"v\"); ~IniFile()");
+	vf::sample("ini:L:0:3:01234:jfb = 5-line text \"[a]\\n[ab]\\nx=1\\ny=2\\n  z=3\" (no final newline), set(\"x\",\"w w\"); set(\"ab/y\",\"w w\"); set(\"a/x\",\"w w\"); write(); ~IniFile()");
+	vf::sample("ini:C:1:1:570:dic (write() after every prefix): text \"# c\\r\\n\\r\\n[a]\\r\\n\", set(\"a/n\",\"w w\"); write(); set(\"x\",\"v\"); set(\"a/n\",\"v\"); ~IniFile()");
 	vf::sample("csv:A:3x2:<every one of 13^6 tables> written as arrays and cell by cell, read back with data()");
 	return vf::finish();
 #else
 	// ---------------- INI (a): quick and thorough: texts <= 4 lines x histories <= 2; thorough adds the 5-line texts with histories <= 1
 	{ Plan p = { 0, 4, 2, false }; ini_plan(p); }
+	{ Plan p = { 0, T ? 4 : 3, 2, false, true }; ini_plan(p); } // histories that set empty values (a section may then receive empty and non-empty new keys at once)
 	if (T) { Plan p = { 5, 5, 1, false }; ini_plan(p); }
 	// ---------------- INI (b): histories of 20 sets with a write() after 0..20 of them, on all texts of <= 3 lines
 	{
@@ -467,7 +476,7 @@ int main(int argc, char** argv) {
 			for (int step = 1; step <= 3; step += 2)
 				for (int rot = 0; rot < NOPS; rot++) {
 					c.ops.clear();
-					for (int i = 0; i < 20; i++) c.ops.push_back((rot + i * step) % NOPS);
+					for (int i = 0; i < 20; i++) c.ops.push_back((rot + i * step) % NOPS); // step 1 and 3 over all 15 ops: every name gets every value incl. ""
 					static const int wpT[] = { -1, 0, 1, 10, 19, 20 }, wpQ[] = { -1, 10, 20 };
 					for (int w = 0; w < (T ? 6 : 3); w++) { c.wpos = T ? wpT[w] : wpQ[w]; run_ini(c); }
 				}
@@ -488,7 +497,7 @@ int main(int argc, char** argv) {
 	});
 
 	vf::sample("ini:L:0:-1:0235:- = text \"[a]\\nx=1\\ny=2\\n# c\" (no final newline), no set(), destructor; fresh IniFile must return a/x=1, a/y=2; raw order [entry a/x, entry a/y, comment '# c']");
-	vf::sample("ini:C:1:2:2104:38 = text \"x=1\\r\\n[b]\\r\\n[a]\\r\\n  z=3\\r\\n\", set(\"a/n\",\"w w\"); set(\"x\",\"v\"); write(); ~IniFile(): fresh must return x=v (top level), a/n=w w, a/z=3");
+	vf::sample("ini:C:1:2:2104:di = text \"x=1\\r\\n[ab]\\r\\n[a]\\r\\n  z=3\\r\\n\", set(\"a/n\",\"w w\"); set(\"x\",\"v\"); write(); ~IniFile(): fresh must return x=v (top level), a/n=w w, a/z=3");
 	vf::sample("ini 20-set histories: set(a/x,v) set(a/x,w w) set(a/n,v) ... cycling over {a/x,a/n,b/y,c/k,x} x {v,'w w'} with write() after 0/1/10/19/20 sets, on all texts of <= 3 lines");
 	vf::sample("csv:C:2x2:gmdk = rows [\",\", \"\\\"q\\\"\"], [123456789012345, \" \"] written cell by cell, read back with data()");
 	vf::sample("csv:A:30x8:<diagonal fill> = 30 rows x 8 columns over {1,-2.5,1e-7,123456789012345,\"\",a,\",\",\";\",\"\\\"\",\"'\",\" \",\"a,b\",\"\\\"q\\\"\"} written as arrays, read with nextRow()/[i]/[name]");
